@@ -252,11 +252,11 @@ func (p *prop) RunCase(seed int64, tier string, idx int) vp.CaseResult {
 }
 
 func init() {
-	vp.Register(&prop{skQuick: 16, skThorough: 240, PropDef: &pipe.PropDef{
+	vp.Register(&prop{skQuick: 16, skThorough: 120, PropDef: &pipe.PropDef{
 		PID: "C03", PLevel: "fault_enumeration",
 		RuleText: "scenario = both engines, 1-2 sources x 1-2 destinations with filters/errors/splits/nacks, small persister thresholds, optional failing commits, stop/force-stop mid-flow; the run records a store snapshot at every commit. Crash points: EVERY prefix of the recorded history is judged arithmetically (no source ack beyond the position held by the last commit of the prefix; no commit past an unhandled record); additionally a fresh engine (fresh services, Init, lifecycle Init / user Start) is restarted on up to 6 distinct (position, status) snapshots per run; on top of that a REAL SIGKILL tier (16 cases quick, 240 thorough): a child process runs the scenario on a badger directory, journaling every boundary event as it happens, the parent SIGKILLs it when the journal reaches a PRNG-chosen length (60-560 events), a second child reopens the directory, initialises fresh services and reports the stored and the reopened positions: no journaled source ack may exceed the stored position and no record at or before the reopened position may lack a terminal outcome in the journal and the position handed to the source plugin's Open is judged: no record at or before it may lack a terminal outcome within the prefix. Non-trivial: >=2 restarts and >=1 ack judged; distinct = distinct (engine, topology, control kind, number of distinct snapshots).",
 		Assume:   []string{"an in-process snapshot models a crash as 'store = last successful commit'; torn writes inside the store engine are out of scope (the store's own crash atomicity is trusted)", "the restarted engine uses the same plugin scripts; reopen earlier than the durable position is an observation, not a violation"},
-		Quick:    160, Thorough: 6000,
+		Quick:    160, Thorough: 1600,
 		PointBias: []string{"connector.persister.before-commit", "connector.persister.after-commit", "connector.persister.callback", "connector.source.ack"},
 		Anchors:   []string{"pkg/connector/source.go", "pkg/connector/persister.go", "pkg/connector/store.go", "pkg/connector/service.go", "pkg/pipeline/service.go", "pkg/pipeline/store.go"},
 		Gen:       gen, Judge: judge,
